@@ -23,6 +23,14 @@ import Ark.Model.Proto
   Tests of the real code (`t_*`; model column = the value the relation demands, or `any`):
   t_bilin t_addl t_addr t_nondeg t_idl t_idr t_multi t_prep t_femul t_fepow.
 
+  The rest of the public API of `ec/src/pairing.rs` (conformance): mlomul outzero outiszero outzeroize outdisplay
+  outaddv outsubv outdblv outmulv outsum outmulbig outmulbits valid vbatch deserb; tests: t_mlofe t_outrand t_outmsm.
+  * `valid` / `vbatch` / `deserb`: accepted under `Validate::Yes` ⇔ every member satisfies `x^r = 1` (plain
+    exponentiation over the schoolbook product), `Validate::No` accepts every canonical encoding.
+  * `PairingOutput`'s group operations use the `cyclotomic_*` methods of the target field; the wrapped field is
+    public, so operands outside `GT` are constructible: the model follows the code, the verdict is `note:` when a
+    result deviates from the group law and some operand is outside `GT`, `bad:` when all operands are in `GT`.
+
   Every verdict is computed with the *independent* schoolbook arithmetic of `DrvC02`
   (`smul` / `spow` on flattened coordinates), never with the tower templates the model runs on.
 -/
@@ -91,9 +99,116 @@ def showCoeffs {G : Type} (D : FieldD (Fp p) G) (cs : List (EllCoeff G)) : Strin
   if cs.isEmpty then "_"
   else joinWith ";" (cs.map fun c => showE D c.1 ++ "," ++ showE D c.2.1 ++ "," ++ showE D c.2.2)
 
+
+/-! ## byte-level glue for the (de)serialization ops (the target field's own format is C09 / C10 business:
+    every base-prime-field coordinate as `⌈bits(p)/8⌉` little-endian bytes, no flags) -/
+
+def coordBytes (p : Nat) : Nat := (p.log2 + 1 + 7) / 8
+
+def hexPairs? : List Char → Option (List Nat)
+  | [] => some []
+  | a :: b :: rest => do
+    let x ← hexDigit? a; let y ← hexDigit? b
+    let t ← hexPairs? rest
+    some ((16 * x + y) :: t)
+  | _ => none
+
+/-- a byte string printed as two hex digits per byte (`_` = empty) -/
+def hexBytes? (s : String) : Option (List Nat) := if s == "_" then some [] else hexPairs? s.toList
+
+def leVal (bs : List Nat) : Nat := bs.foldr (fun b acc => b + 256 * acc) 0
+
+def bytesLE : Nat → Nat → List Nat
+  | 0, _ => []
+  | n + 1, v => v % 256 :: bytesLE n (v / 256)
+
+def showBytes (bs : List Nat) : String :=
+  if bs.isEmpty then "_" else String.ofList (bs.flatMap fun b => [hexChar (b / 16), hexChar (b % 16)])
+
+/-- `Fp::deserialize_with_flags::<EmptyFlags>` `deg` times (the extension towers read coordinate after
+    coordinate): `read_exact` failing ↦ `io`, a value `≥ p` ↦ `invalid` -/
+def readCoords (p : Nat) : Nat → List Nat → Except String (List Nat × List Nat)
+  | 0, bs => .ok ([], bs)
+  | d + 1, bs =>
+    let n := coordBytes p
+    if bs.length < n then .error "io"
+    else
+      let v := leVal (bs.take n)
+      if v ≥ p then .error "invalid"
+      else match readCoords p d (bs.drop n) with
+        | .error e => .error e
+        | .ok (cs, rest) => .ok (v :: cs, rest)
+
+/-- `n` elements, one after the other -/
+def readMany {α : Type} (rd : List Nat → Except String (α × List Nat)) : Nat → List Nat → Except String (List α × List Nat)
+  | 0, bs => .ok ([], bs)
+  | n + 1, bs =>
+    match rd bs with
+    | .error e => .error e
+    | .ok (x, rest) => match readMany rd n rest with
+      | .error e => .error e
+      | .ok (xs, rest) => .ok (x :: xs, rest)
+
+/-- the containers of `ark-serialize` around an element reader `rd` and a batch validity predicate `bc`
+    (`Vec<T>`: `u64` length prefix, elements read with `Validate::No`, then `T::batch_check`; `[T; 2]`: the same
+    without prefix; `Option<T>`: a `bool` tag byte, then `T::deserialize_with_mode(.., validate)`).
+    Result: the list of elements (`none` = `Option::None`) -/
+def deContainer {α : Type} (rd : List Nat → Except String (α × List Nat)) (bc : List α → Bool)
+    (kind : String) (validate : Bool) (bs : List Nat) : Option (Except String (Option (List α))) :=
+  let fin (r : Except String (List α × List Nat)) : Except String (Option (List α)) :=
+    match r with
+    | .error e => .error e
+    | .ok (xs, _) => if validate && !bc xs then .error "invalid" else .ok (some xs)
+  match kind with
+  | "one" => some (fin (readMany rd 1 bs))
+  | "arr2" => some (fin (readMany rd 2 bs))
+  | "vec" =>
+    if bs.length < 8 then some (.error "io")
+    else some (fin (readMany rd (leVal (bs.take 8)) (bs.drop 8)))
+  | "opt" =>
+    match bs with
+    | [] => some (.error "io")
+    | 0 :: _ => some (.ok none)
+    | 1 :: rest => some (fin (readMany rd 1 rest))
+    | _ => some (.error "invalid")
+  | _ => none
+
+def showDe {α : Type} (sh : α → String) : Except String (Option (List α)) → String
+  | .error e => "err:" ++ e
+  | .ok none => "ok:none"
+  | .ok (some xs) => "ok:" ++ (if xs.isEmpty then "_" else joinWith ";" (xs.map sh))
+
+/-- `n` forms of the same operation on one line (a panic of any of them is the line's result) -/
+def rep (n : Nat) (s : String) : String := if s == "panic" then s else joinWith ";" (List.replicate n s)
+
+/-- `Display` of the tower types: `Fp` prints the decimal standard value, `QuadExtField(c0 + c1 * u)`,
+    `CubicExtField(c0, c1, c2)` -/
+def displayT : Shape → List Nat → String
+  | .prime, a => toString (a.headD 0)
+  | .ext k _ s, a =>
+    let cs := (DrvC02.chunk s.deg k a).map (displayT s)
+    if k == 2 then "QuadExtField(" ++ cs.headD "" ++ " + " ++ (cs.drop 1).headD "" ++ " * u)"
+    else "CubicExtField(" ++ joinWith ", " cs ++ ")"
+
+/-- the tokens of a `valid` line: check, batch_check of the singleton, checked / unchecked deserialization in both
+    modes, `Option<_>`, the sizes (claimed compressed / uncompressed, written compressed / uncompressed), the bytes -/
+def validTokens (p : Nat) (v : Bool) (coords : List Nat) : String :=
+  let b := boolStr v
+  let n := coordBytes p
+  let sz := hex (n * coords.length)
+  joinWith "," [b, b, b, b, "1", "1", b, sz ++ "/" ++ sz ++ "/" ++ sz ++ "/" ++ sz,
+                showBytes (coords.flatMap (bytesLE n))]
+
+/-- the tokens of a `vbatch` line -/
+def batchTokens (p deg : Nat) (v : Bool) (len : Nat) : String :=
+  let b := boolStr v
+  let two := if len == 2 then b else "-"
+  let sz := hex (8 + len * deg * coordBytes p)
+  joinWith "," [b, b, b, b, "1", "1", two, two, sz ++ "/" ++ sz]
+
 /-- the ops every family answers through the trait `Pairing` and `PairingOutput` -/
 def engineModel {A1 A2 T : Type} [Mul T] [Zero T] [One T] [DecidableEq T]
-    (Eng : Engine A1 A2 T) (DT : FieldD (Fp p) T) (C : CycD T)
+    (Eng : Engine A1 A2 T) (DT : FieldD (Fp p) T) (C : CycD T) (r : Nat) (sh : Shape)
     (p1 : String → Option A1) (p2 : String → Option A2)
     (extra : String → List String → Option String) (op : String) (args : List String) : Option String :=
   match op, args with
@@ -115,6 +230,46 @@ def engineModel {A1 A2 T : Type} [Mul T] [Zero T] [One T] [DecidableEq T]
     let a ← parseE DT a; let s ← parseHex? s
     -- `other.into_bigint()`: the limbs of the scalar field's `BigInt`
     some (showO DT (outMulBigint C a (toLimbs (s.log2 / 64 + 1) s)))
+  -- ---- the rest of the public API of `ec/src/pairing.rs` ----
+  | "mlomul", [f, s] => do
+    let f ← parseE DT f; let s ← parseHex? s
+    some (showE DT (mloMul DT f (toLimbs (r.log2 / 64 + 1) s)))
+  | "outzero", [_] => some (showE DT (outZero : T))
+  | "outiszero", [a] => do let a ← parseE DT a; some (boolStr (outIsZero a))
+  | "outzeroize", [a] => do let a ← parseE DT a; some (showE DT (outZeroize a))
+  | "outaddv", [a, b] => do let a ← parseE DT a; let b ← parseE DT b; some (rep 9 (showE DT (outAdd a b)))
+  | "outsubv", [a, b] => do let a ← parseE DT a; let b ← parseE DT b; some (rep 9 (showO DT (outSub C a b)))
+  | "outdblv", [a] => do let a ← parseE DT a; some (rep 2 (showE DT (outDouble C a)))
+  | "outmulv", [a, s] => do
+    let a ← parseE DT a; let s ← parseHex? s
+    some (rep 7 (showO DT (outMulBigint C a (toLimbs (r.log2 / 64 + 1) s))))
+  | "outsum", [l] => do
+    let l ← mapM? (parseE DT) (splitList l)
+    some (rep 2 (showE DT (outSum l)))
+  | "outmulbig", [a, l] => do
+    let a ← parseE DT a; let l ← parseList? l
+    some (showO DT (outMulBigint C a l))
+  | "outmulbits", [a, bits] => do
+    let a ← parseE DT a; let bits ← parseBits? bits
+    some (showO DT (outMulBitsBE C a bits))
+  | "outdisplay", [a] => do let l ← parseList? a; let _ ← parseE DT a; some (displayT sh l)
+  | "valid", [a] => do
+    let l ← parseList? a; let a ← parseE DT a
+    some (validTokens p (outCheck DT (DrvC02.charLimbs r) a) l)
+  | "vbatch", [l] => do
+    let l ← mapM? (parseE DT) (splitList l)
+    some (batchTokens p DT.extDeg (outBatchCheck DT (DrvC02.charLimbs r) l) l.length)
+  | "deserb", [kind, mode, bytes] => do
+    let bs ← hexBytes? bytes
+    let validate := mode.endsWith "y"
+    let rd (bs : List Nat) : Except String (T × List Nat) :=
+      match readCoords p DT.extDeg bs with
+      | .error e => .error e
+      | .ok (cs, rest) => match DT.fromPrimes (fps cs) with
+        | some x => .ok (x, rest)
+        | none => .error "invalid"
+    let out ← deContainer rd (outBatchCheck DT (DrvC02.charLimbs r)) kind validate bs
+    some (showDe (showE DT) out)
   | _, _ => extra op args
 
 abbrev F2 (p : Nat) := Quad (Fp p)
@@ -217,7 +372,7 @@ def instBls12 (p r : Nat) (kv : KV) : Option Inst :=
     let pk := p ^ 12 - 1
     some { family := "bls12", p := p, r := r, shape := sh,
            feExp := if pk % r == 0 then some (3 * (pk / r)) else none,
-           model := engineModel Eng D12 C12 parsePt1 (parsePt2 D2) extra }
+           model := engineModel Eng D12 C12 r sh parsePt1 (parsePt2 D2) extra }
 
 def instBn (p r : Nat) (kv : KV) : Option Inst :=
   withTower12 (p := p) kv fun m2 D2 cf6 m12 D12 C12 sh => do
@@ -247,7 +402,7 @@ def instBn (p r : Nat) (kv : KV) : Option Inst :=
     let ord : Nat := (p ^ 4 + 1) - p ^ 2   -- Φ₁₂(p)
     some { family := "bn", p := p, r := r, shape := sh,
            feExp := if pk % r == 0 then some ((c % ((ord : Nat) : Int)).toNat * (pk / r)) else none,
-           model := engineModel Eng D12 C12 parsePt1 (parsePt2 D2) extra }
+           model := engineModel Eng D12 C12 r sh parsePt1 (parsePt2 D2) extra }
 
 def instBw6 (p r : Nat) (kv : KV) : Option Inst :=
   withTower6a (p := p) kv fun c3 _m3 _D3 m6 D6 C6 sh => do
@@ -282,7 +437,7 @@ def instBw6 (p r : Nat) (kv : KV) : Option Inst :=
     let pk := p ^ 6 - 1
     some { family := "bw6", p := p, r := r, shape := sh,
            feExp := if pk % r == 0 then some ((c % (r : Int)).toNat * (pk / r)) else none,
-           model := engineModel Eng D6 C6 parsePt1 parsePt1 extra }
+           model := engineModel Eng D6 C6 r sh parsePt1 parsePt1 extra }
 
 def showMntG2 {G : Type} (D : FieldD (Fp p) G) (pr : MntG2Prepared G) : String :=
   let sh := showE D
@@ -321,7 +476,7 @@ def mntInst {G : Type} [Add G] [Sub G] [Mul G] [Neg G] [Zero G] [One G] [Decidab
   let first : Nat := if isMnt6 then (p ^ 3 - 1) * (p + 1) else p ^ 2 - 1
   some { family := fam, p := p, r := r, shape := sh,
          feExp := if w ≥ 0 then some (first * w.toNat) else none,
-         model := engineModel Eng DT C parsePt1 (parsePt2 DG) extra }
+         model := engineModel Eng DT C r sh parsePt1 (parsePt2 DG) extra }
 
 def instMnt4 (p r : Nat) (kv : KV) : Option Inst :=
   withTower4 (p := p) kv fun m2 D2 m4 D4 C4 sh =>
@@ -361,6 +516,29 @@ def isOutput (I : Inst) (impl : String) (k : List Nat → String) : String :=
   else match parseT I impl with
     | none => "bad:malformed"
     | some v => if powT I v I.r == oneT I then k v else "bad:order-not-dividing-r"
+
+
+/-- membership in the target group `GT = {x : x^r = 1}`, by plain exponentiation -/
+def inGT (I : Inst) (v : List Nat) : Bool := powT I v I.r == oneT I
+
+/-- `PairingOutput`'s arithmetic goes through the `cyclotomic_*` methods of the target field, which are only
+    specified for members of the cyclotomic subgroup; the field of `PairingOutput` is public, so any field element
+    can be wrapped.  A result that deviates from the group law is a violation when all operands lie in `GT`,
+    and a note (outside the type's invariant) otherwise.  Membership is only computed on deviation. -/
+def gtAware (I : Inst) (operands : List (List Nat)) (good : Bool) (want : String) : String :=
+  if good then "ok"
+  else if operands.all (inGT I) then "bad:want=" ++ want
+  else "note:operand-outside-GT,want=" ++ want
+
+/-- all `;`-separated pieces of `impl` are target-field elements satisfying `k` -/
+def allPieces (I : Inst) (impl : String) (n : Nat) (k : List Nat → Bool) : Bool :=
+  let ps := impl.splitOn ";"
+  ps.length == n && ps.all fun s => match parseT I s with
+    | some v => k v
+    | none => false
+
+/-- value of a bit string read big-endian (first bit = most significant) -/
+def bitsValBE (bits : List Bool) : Nat := bits.foldl (fun acc b => 2 * acc + (if b then 1 else 0)) 0
 
 def isInf (s : String) : Bool := s == "inf"
 
@@ -407,6 +585,22 @@ def testOp (I : Inst) (op : String) (args : List String) (impl : String) : Optio
       let k := I.shape.deg
       if (e * I.r) % (I.p ^ k - 1) != 0 then some ("any", "bad:spec-exponent-not-a-multiple-of-(p^k-1)/r")
       else some (want (powT I f e))
+  -- `final_exponentiation(ML * s) = final_exponentiation(ML)^s`
+  | "t_mlofe", [e, s] => do
+    let s ← parseHex? s
+    if e == "panic" || impl == "panic" then some ("any", "bad:panic")
+    else if e == "none" || impl == "none" then some ("any", "bad:none")
+    else
+      let e ← parseT I e
+      some (want (powT I e s))
+  -- `Distribution<PairingOutput>`: a member of `GT`
+  | "t_outrand", [] => some ("any", isOutput I impl fun _ => "ok")
+  -- `VariableBaseMSM for PairingOutput` on honest outputs: `Σ sᵢ•eᵢ`, i.e. `Π eᵢ^sᵢ`
+  | "t_outmsm", [bs, ss] => do
+    let bs ← mapM? (parseT I) (splitList bs)
+    let ss ← parseList? ss
+    if bs.length != ss.length then none
+    else some (want ((bs.zip ss).foldl (fun acc (b, s) => mulT I acc (powT I b s)) (oneT I)))
   | _, _ => none
 
 /-- verdicts of the conformance ops -/
@@ -427,20 +621,59 @@ def verdict (I : Inst) (op : String) (args : List String) (impl : String) : Opti
     else some (isOutput I impl fun _ => "ok")
   | "g2prep", [_] | "g1prep", [_] => some (if impl == "panic" then "bad:panic" else "ok")
   | "outadd", [a, b] => do let a ← parseT I a; let b ← parseT I b; some (vs impl (hexList (mulT I a b)))
-  | "outdbl", [a] => do let a ← parseT I a; some (vs impl (hexList (mulT I a a)))
+  | "outdbl", [a] => do
+    let a ← parseT I a
+    let w := hexList (mulT I a a)
+    some (gtAware I [a] (impl == w) w)
   | "outsub", [a, b] => do
     let a ← parseT I a; let b ← parseT I b
-    match parseT I impl with
-    | some v => some (if mulT I v b == a then "ok" else "bad:(a-b)+b!=a")
-    | none => some ("bad:" ++ impl)
+    some (gtAware I [b, a] (allPieces I impl 1 fun v => mulT I v b == a) "(a-b)+b=a")
   | "outneg", [a] => do
     let a ← parseT I a
-    match parseT I impl with
-    | some v => some (if mulT I v a == oneT I then "ok" else "bad:a+(-a)!=0")
-    | none => some ("bad:" ++ impl)
+    some (gtAware I [a] (allPieces I impl 1 fun v => mulT I v a == oneT I) "a+(-a)=0")
   | "outmul", [a, s] => do
     let a ← parseT I a; let s ← parseHex? s
-    some (vs impl (hexList (powT I a s)))
+    let w := hexList (powT I a s)
+    some (gtAware I [a] (impl == w) w)
+  -- ---- the rest of the public API of `ec/src/pairing.rs` ----
+  | "mlomul", [f, s] => do let f ← parseT I f; let s ← parseHex? s; some (vs impl (hexList (powT I f s)))
+  | "outzero", [_] => some (vs impl (hexList (oneT I)))
+  | "outiszero", [a] => do let a ← parseT I a; some (vs impl (boolStr (a == oneT I)))
+  | "outzeroize", [_] => some (vs impl (hexList (List.replicate I.shape.deg 0)))
+  | "outaddv", [a, b] => do let a ← parseT I a; let b ← parseT I b; some (vs impl (rep 9 (hexList (mulT I a b))))
+  | "outsubv", [a, b] => do
+    let a ← parseT I a; let b ← parseT I b
+    some (gtAware I [b, a] (allPieces I impl 9 fun v => mulT I v b == a) "(a-b)+b=a")
+  | "outdblv", [a] => do
+    let a ← parseT I a
+    let w := rep 2 (hexList (mulT I a a))
+    some (gtAware I [a] (impl == w) w)
+  | "outmulv", [a, s] => do
+    let a ← parseT I a; let s ← parseHex? s
+    let w := rep 7 (hexList (powT I a s))
+    some (gtAware I [a] (impl == w) w)
+  | "outsum", [l] => do
+    let l ← mapM? (parseT I) (splitList l)
+    some (vs impl (rep 2 (hexList (l.foldl (mulT I) (oneT I)))))
+  | "outmulbig", [a, l] => do
+    let a ← parseT I a; let l ← parseList? l
+    let w := hexList (powT I a (value l))
+    some (gtAware I [a] (impl == w) w)
+  -- `mul_bits_be`: "`other` is a big-endian bit representation of some integer" (`PrimeGroup`)
+  | "outmulbits", [a, bits] => do
+    let a ← parseT I a; let bits ← parseBits? bits
+    let w := hexList (powT I a (bitsValBE bits))
+    some (gtAware I [a] (impl == w) w)
+  | "outdisplay", [a] => do let a ← parseT I a; some (vs impl (displayT I.shape a))
+  -- accepted under `Validate::Yes` ⇔ `x^r = 1`; `Validate::No` accepts; sizes = bytes written; canonical bytes
+  | "valid", [a] => do let a ← parseT I a; some (vs impl (validTokens I.p (inGT I a) a))
+  | "vbatch", [l] => do
+    let l ← mapM? (parseT I) (splitList l)
+    some (vs impl (batchTokens I.p I.shape.deg (l.all (inGT I)) l.length))
+  | "deserb", [kind, mode, bytes] => do
+    let bs ← hexBytes? bytes
+    let out ← deContainer (readCoords I.p I.shape.deg) (fun l => l.all (inGT I)) kind (mode.endsWith "y") bs
+    some (vs impl (showDe hexList out))
   | _, _ => none
 
 def run (cache : Cache) (op : String) (args : List String) (impl : String) :
